@@ -80,6 +80,12 @@ var c15Bodies = []struct{ name, text string }{
 	{"json long, syntax error early", `{"j":"json-j" "x":"` + strings.Repeat("y", 700) + `"}`},
 	{"multipart", "--xyz\r\nContent-Disposition: form-data; name=\"f\"\r\n\r\nmp-f\r\n--xyz\r\nContent-Disposition: form-data; name=\"q\"\r\n\r\nmp-q\r\n--xyz\r\nContent-Disposition: form-data; name=\"l\"\r\n\r\nmp-l\r\n--xyz--\r\n"},
 	{"json long valid object", `{"j":"json-j","x":"` + strings.Repeat("y", 700) + `","pad":"` + strings.Repeat("p", 900) + `"}`},
+	// insignificant white space in front of the document, around the sizes at which readers buffer (pretty-printers and proxies pad)
+	{"json object behind 511 blanks", strings.Repeat(" ", 511) + `{"j":"json-j","x":"json-x"}`},
+	{"json object behind 512 bytes of CRLF", strings.Repeat("\r\n", 256) + `{"j":"json-j","x":"json-x"}`},
+	{"json object behind 4096 blanks and tabs", strings.Repeat(" \t", 2048) + `{"j":"json-j","x":"json-x"}`},
+	{"json array behind 600 blanks", strings.Repeat(" ", 600) + `[1]`},
+	{"600 blanks only", strings.Repeat(" ", 600)},
 }
 
 var c15Queries = []struct{ name, raw string }{
@@ -131,7 +137,7 @@ func c15Scenario(x *mc.X) *mc.Outcome {
 	}
 	// what the process did before: nothing, or an execution in which a catching field swallowed a failure of a test
 	// that carries its own message (the library recycles the objects of finished executions)
-	undecodable := map[string]bool{"json truncated": true, "json array": true, "json null": true, "json number": true, "json string": true, "two json documents": true, "form malformed escape": true, "json long, syntax error early": true, "empty": true, "json object holding a number beyond float64": true}
+	undecodable := map[string]bool{"json truncated": true, "json array": true, "json null": true, "json number": true, "json string": true, "two json documents": true, "form malformed escape": true, "json long, syntax error early": true, "empty": true, "json object holding a number beyond float64": true, "json array behind 600 blanks": true, "600 blanks only": true}
 	if undecodable[body.name] && middleware == 0 && x.Bool("an earlier execution swallowed a nested failure") {
 		var prev struct{ Nick string }
 		z.Struct(z.Schema{"nick": z.String().Min(5, z.Message("nick too short")).Catch("anon")}).Parse(map[string]any{"nick": "ab"}, &prev)
